@@ -118,11 +118,12 @@ def msetInputs (H : Bytes → Digest) (mods : List Mod) : List Bytes :=
     match mods[i]? with
     | none => []
     | some m =>
-      let ds := if m.isLocal then
-          (match mapExcept (moduleDigest H mods (mods.length + 1)) m.deps with
-           | .ok ds => ds | .error _ => [])
-        else m.pinned
-      b5Inputs H m.bucket ds
+      -- a local module one of whose dependencies has no digest hashes nothing that matters here
+      if m.isLocal then
+        (match mapExcept (moduleDigest H mods (mods.length + 1)) m.deps with
+         | .ok ds => b5Inputs H m.bucket ds
+         | .error _ => [])
+      else b5Inputs H m.bucket m.pinned
 
 def showNode (r : Except MErr FileNode) : String :=
   match r with
